@@ -42,12 +42,17 @@ counters!(
     fault_sqpoll_sleep,
     fault_defer_taskrun_hold,
     fault_close_error,
+    fault_prep_refused,
+    fault_old_kernel,
+    fault_single_issuer_refused,
+    fault_notif_survives_cancel,
     fault_kernel_at_yield,
     // Probes: rare conditions reached.
     probe_restart_taken,
     probe_restart_multishot,
     probe_drop_running,
     probe_drop_not_started,
+    probe_drop_during_unwind,
     probe_drop_done_unpolled,
     probe_drop_after_first_cqe,
     probe_drop_multishot_midstream,
@@ -63,6 +68,7 @@ counters!(
     probe_cq_overflow_flushed,
     probe_stale_waker_used,
     probe_waker_replaced,
+    probe_waker_twin,
     probe_sync_close_fallback,
     probe_direct_close,
     probe_fd_to_abandoned_op,
@@ -80,12 +86,14 @@ counters!(
     probe_wake_single_issuer,
     probe_poll_clock_advanced,
     probe_thread_switches,
+    probe_sched_pct,
     probe_lock_contended,
     probe_composite_continuation,
     probe_composite_boundary_split,
     probe_composite_empty_buffer,
     probe_inotify_event_held,
     probe_inotify_multi_read,
+    probe_inotify_rewatch,
     probe_build_err,
     probe_build_ok,
     probe_cancel_seen,
